@@ -7,6 +7,7 @@
   under standard precedence, every member indivisible — the property's reading.
 -/
 import GormModel.Lemmas.Where
+import GormModel.Lemmas.WhereRec
 namespace Gorm
 
 /-- MAIN (units are indivisible): whatever list of conditions `Where.Build` ends up with — any number of
@@ -84,19 +85,6 @@ theorem C02_or_group (env : Nat → V3) (e1 e2 : Ex) (r : List Ex)
 
 /-! ### Not -/
 
-theorem AtomKind.pol_negate (k : AtomKind) : k.negate.pol = !k.pol := by cases k <;> rfl
-
-def cmpVal (env : Nat → V3) (a : Atom) : V3 := if a.kind.pol then env a.id else (env a.id).not
-
-theorem unitVal_cmp (env : Nat → V3) (a : Atom) : unitVal env (.atom a) = cmpVal env a := by
-  simp [unitVal, sqlEval, Ex.build, expandFlat, expandItem, List.cons_append, List.nil_append, Atom.core, evalFlat, evalCore, applyNegs_zero, evalRuns, cmpVal]
-
-theorem cmpVal_negate (env : Nat → V3) (a : Atom) : cmpVal env a.negate = (cmpVal env a).not := by
-  unfold cmpVal
-  show (if a.kind.negate.pol = true then env a.id else (env a.id).not) = _
-  rw [AtomKind.pol_negate]
-  cases a.kind.pol <;> simp
-
 /-- `Not` of one generated comparison is its negation (`NegationBuild`: Eq↔Neq, Gt→Lte, …) -/
 theorem C02_not_atom (env : Nat → V3) (a : Atom) :
     unitVal env (.not [.atom a]) = (unitVal env (.atom a)).not := by
@@ -168,6 +156,175 @@ theorem C02_not_single (env : Nat → V3) (e : Ex) (hn : e.negatable = false)
       subst this
       simp [setJoin, addNeg, evalFlat, evalRuns, applyNegs_succ]
 
+/-! ### all depths: every nested member of a sound tree is an indivisible operand -/
+
+theorem evalFlat_head_and (env : Nat → V3) (n : Nat) (c : Core) (r : Flat) :
+    evalFlat env ((.and, n, c) :: r) = evalRuns env .f .t ((.and, n, c) :: r) := by
+  simp [evalFlat, evalRuns]
+
+theorem notListA_head_and (es : List Ex) (hs : soundNotA es = true) (hne : es ≠ []) :
+    ∃ n c r, expandFlat (notListA es) = (.and, n, c) :: r := by
+  cases es with
+  | nil => exact absurd rfl hne
+  | cons e r =>
+    have hmem := soundNotA_members (e :: r) hs e List.mem_cons_self
+    have aux : ∀ (x : Ex), x.negatable = false → x.build ≠ [] →
+        ∃ n c t, expandFlat ((if notWrap x then [(Joiner.and, 1, Core.paren x.build)] else setJoin .and (addNeg x.build)) ++ notListA r)
+          = (.and, n, c) :: t := by
+      intro x _ hb
+      by_cases hw : notWrap x = true
+      · exact ⟨1, Core.paren (expandFlat x.build), expandFlat (notListA r), by simp [hw, expandFlat, expandItem]⟩
+      · simp only [hw, Bool.false_eq_true, if_false]
+        rw [expandFlat_append, expandFlat_setJoin, expandFlat_addNeg]
+        have := expandFlat_ne_nil _ hb
+        cases hx : expandFlat x.build with
+        | nil => exact absurd hx this
+        | cons y ys => obtain ⟨a1, b1, c1⟩ := y; exact ⟨b1 + 1, c1, ys ++ expandFlat (notListA r), by simp [addNeg, setJoin]⟩
+    cases e with
+    | atom a => exact ⟨0, a.negate.core, expandFlat (notListA r), by simp [notListA, expandFlat, expandItem, Atom.core]⟩
+    | raw t n o f =>
+      rcases hmem with h | ⟨_, h2, _⟩
+      · simp [Ex.negatable] at h
+      · simpa [notListA] using aux _ rfl h2
+    | and l =>
+      rcases hmem with h | ⟨_, h2, _⟩
+      · simp [Ex.negatable] at h
+      · simpa [notListA] using aux _ rfl h2
+    | or l =>
+      rcases hmem with h | ⟨_, h2, _⟩
+      · simp [Ex.negatable] at h
+      · simpa [notListA] using aux _ rfl h2
+    | not l =>
+      rcases hmem with h | ⟨_, h2, _⟩
+      · simp [Ex.negatable] at h
+      · simpa [notListA] using aux _ rfl h2
+
+theorem list_case (env : Nat → V3) (jc : Joiner) (es : List Ex) (h : soundList (decide (es.length > 1)) es = true)
+    (hm : ∀ e ∈ es, e.sound = true → unitVal env e = e.sem env) :
+    sqlEval env (buildList (decide (es.length > 1)) true jc es) = semList env jc es := by
+  have hsnd := soundList_members _ es h
+  have hag : MembersAgree env es := fun e he => hm e he (hsnd e he)
+  cases es with
+  | nil => simp [sqlEval, buildList, expandFlat, evalFlat, semList]
+  | cons e1 r1 =>
+    cases r1 with
+    | nil =>
+      have hl : decide (([e1] : List Ex).length > 1) = false := by simp
+      rw [hl, buildList_single, hag e1 List.mem_cons_self]
+      simp [semList, semRuns]
+    | cons e2 r =>
+      have hl : decide ((e1 :: e2 :: r).length > 1) = true := by simp
+      rw [hl] at h ⊢
+      rw [buildList_spec env jc _ (soundList_memberSafe _ h)]
+      exact listSpec_eq_semList env jc _ hag
+
+theorem and_or_unit (env : Nat → V3) (jc : Joiner) (es : List Ex) :
+    sqlEval env (if es.length > 1 then [(Joiner.and, 0, Core.paren (buildList (decide (es.length > 1)) true jc es))]
+      else buildList (decide (es.length > 1)) true jc es) = sqlEval env (buildList (decide (es.length > 1)) true jc es) := by
+  by_cases hl : es.length > 1
+  · simp [hl, sqlEval, expandFlat, expandItem, evalFlat, evalCore, applyNegs_zero, evalRuns]
+  · simp [hl]
+
+theorem not_case (env : Nat → V3) (es : List Ex) (h : (Ex.not es).sound = true)
+    (hm : ∀ e ∈ es, e.sound = true → unitVal env e = e.sem env) :
+    unitVal env (.not es) = (Ex.not es).sem env := by
+  simp only [Ex.sound, Bool.and_eq_true, Bool.not_eq_true'] at h
+  obtain ⟨hne, hb⟩ := h
+  have hne' : es ≠ [] := by intro hn; rw [hn] at hne; simp at hne
+  by_cases hany : es.any Ex.negatable = true
+  · -- member-wise branch
+    rw [if_pos hany] at hb
+    obtain ⟨n, c, r, hhead⟩ := notListA_head_and es hb hne'
+    have hval : evalFlat env (expandFlat (notListA es)) = semNotA env .t es := by
+      rw [hhead, evalFlat_head_and, ← hhead, notListA_runs env es .f .t hb hm]; simp
+    simp only [unitVal, Ex.build, Ex.sem, hany, if_true, sqlEval]
+    by_cases hl : es.length > 1
+    · simp only [hl, if_true, expandFlat_paren, evalFlat, evalCore, applyNegs_zero, evalRuns]
+      rw [hval]; simp
+    · simp only [hl, if_false]; exact hval
+  · have hany' : es.any Ex.negatable = false := by simpa using hany
+    rw [hany'] at hb
+    simp only [Bool.false_eq_true, if_false] at hb
+    cases es with
+    | nil => exact absurd rfl hne'
+    | cons e r =>
+      cases r with
+      | nil =>
+        have hl : decide (([e] : List Ex).length > 1) = false := by simp
+        rw [hl] at hb
+        obtain ⟨h1, h2, h3⟩ := soundNotB_members false [e] hb e List.mem_cons_self
+        have hneg : e.negatable = false := by simpa using hany'
+        rw [C02_not_single env e hneg (by simpa using h3) h2, hm e List.mem_cons_self h1]
+        simp [Ex.sem, hneg, semNotB, semRunsB]
+      | cons e2 r2 =>
+        have hl : decide ((e :: e2 :: r2).length > 1) = true := by simp
+        rw [hl] at hb
+        have hmem := soundNotB_members true (e :: e2 :: r2) hb
+        have hag : MembersAgree env (e :: e2 :: r2) := fun x hx => hm x hx (hmem x hx).1
+        have htail : ∀ x ∈ e2 :: r2, x.build ≠ [] ∧ (notWrap x = true ∨ noTopOr (expandFlat x.build) = true) := by
+          intro x hx
+          have := hmem x (List.mem_cons_of_mem _ hx)
+          exact ⟨this.2.1, by simpa using this.2.2⟩
+        obtain ⟨_, hne1, hs1⟩ := hmem e List.mem_cons_self
+        have hs1' : notWrap e = true ∨ noTopOr (expandFlat e.build) = true := by simpa using hs1
+        have hbody : evalFlat env (expandFlat (notListB true (e :: e2 :: r2))) = semNotB env (e :: e2 :: r2) := by
+          rw [show notListB true (e :: e2 :: r2)
+                = (if notWrap e then [(Joiner.and, 0, Core.paren e.build)] else setJoin .and e.build) ++ notListB false (e2 :: r2)
+              by simp [notListB]]
+          simp only [semNotB]
+          rw [expandFlat_append]
+          have hfirst : ∀ post, evalFlat env (expandFlat (if notWrap e then [(Joiner.and, 0, Core.paren e.build)] else setJoin .and e.build) ++ post)
+              = evalRuns env .f (unitVal env e) post := by
+            intro post
+            by_cases hw : notWrap e = true
+            · simp [hw, expandFlat, expandItem, evalFlat, evalCore, applyNegs_zero, unitVal, sqlEval]
+            · have hs : noTopOr (expandFlat e.build) = true := by
+                rcases hs1' with h' | h'
+                · exact absurd h' hw
+                · exact h'
+              simp only [hw, Bool.false_eq_true, if_false]
+              rw [expandFlat_setJoin, evalFlat_splice env .and _ _ (expandFlat_ne_nil _ hne1) hs]
+              simp [evalFlat, evalCore, applyNegs_zero, unitVal, sqlEval]
+          rw [hfirst, notListB_runs env (e2 :: r2) _ _ htail,
+            semRunsB_fold env (e2 :: r2) _ _ (fun x hx => hag x (List.mem_cons_of_mem _ hx)), hag e List.mem_cons_self]
+        have hlen : (e :: e2 :: r2).length > 1 := by simp
+        simp only [unitVal, Ex.build, hany', Bool.false_eq_true, if_false, if_pos hlen, sqlEval, expandFlat_paren, evalFlat,
+          evalCore, evalRuns, Ex.sem]
+        rw [hbody]; simp [applyNegs]
+
+mutual
+/-- MAIN, ALL DEPTHS: for every expression tree satisfying `Ex.sound` (every raw string that gorm leaves
+    unparenthesised next to other operands, at any nesting level, has no top-level OR; under NOT a single item),
+    the meaning SQL gives to gorm's rendering is the recursive unit reading `Ex.sem`: at every level the members of
+    an And / Or / Not list are indivisible operands. -/
+theorem C02_tree_units (env : Nat → V3) : (e : Ex) → e.sound = true → unitVal env e = e.sem env
+  | .raw t n o f, _ => unitVal_raw env t n o f
+  | .atom a, _ => unitVal_cmp env a
+  | .and es, h => by
+    have hs : soundList (decide (es.length > 1)) es = true := by simpa [Ex.sound] using h
+    have := list_case env .and es hs (C02_members_units env es)
+    simp only [unitVal, Ex.build, Ex.sem]
+    rw [and_or_unit]; exact this
+  | .or es, h => by
+    have hs : soundList (decide (es.length > 1)) es = true := by simpa [Ex.sound] using h
+    have := list_case env .or es hs (C02_members_units env es)
+    simp only [unitVal, Ex.build, Ex.sem]
+    rw [and_or_unit]; exact this
+  | .not es, h => not_case env es h (C02_members_units env es)
+theorem C02_members_units (env : Nat → V3) : (es : List Ex) → ∀ e ∈ es, e.sound = true → unitVal env e = e.sem env
+  | [], _, he, _ => nomatch he
+  | x :: r, e, he, hs =>
+    match List.mem_cons.mp he with
+    | .inl heq => heq ▸ C02_tree_units env x (heq ▸ hs)
+    | .inr h' => C02_members_units env r e h' hs
+end
+
+/-- … and the whole WHERE clause: combination of the members' recursive unit readings -/
+theorem C02_where_tree (env : Nat → V3) (es : List Ex) (h : whereSound es = true) :
+    sqlEval env (whereBuild es) = semList env .and (whereExprs es) := by
+  have hs : soundList (decide ((whereExprs es).length > 1)) (whereExprs es) = true := h
+  exact list_case env .and (whereExprs es) hs (C02_members_units env _)
+
 /-! ### empty forms add no condition; nil ⇒ IS NULL; slice ⇒ IN -/
 
 theorem C02_empty_forms (es : List Ex) (op : ChainOp) :
@@ -213,7 +370,7 @@ theorem C02_detector_counterexample (text : List Char) (out : String) (h : detec
   refine ⟨?_, ?_, ?_⟩
   · simp [whereSound, whereExprs, unwrapSingleAnd, swapFirst, firstNonSingleOr, raw, c, Ex.isSingleOr, soundList, hw, wrapTest, h,
       Ex.build, expandFlat, expandItem, List.cons_append, List.nil_append, setFirst, noTopOr, Ex.sound]
-  · simp [whereBuild, whereExprs, unwrapSingleAnd, swapFirst, firstNonSingleOr, raw, c, Ex.isSingleOr, buildList, hw, wrapTest, h, Ex.build,
+  · simp [whereBuild, whereExprs, unwrapSingleAnd, swapFirst, firstNonSingleOr, raw, c, Ex.isSingleOr, buildList, memberJoin, hw, wrapTest, h, Ex.build,
       setJoin, sqlEval, expandFlat, expandItem, List.cons_append, List.nil_append, setFirst, Atom.core, evalFlat, evalRuns, evalCore, applyNegs, envOf,
       AtomKind.pol, V3.and, V3.or]
   · simp [whereExprs, unwrapSingleAnd, swapFirst, firstNonSingleOr, raw, c, Ex.isSingleOr, listSpec, listSpecRuns, memberJoin, unitVal,
